@@ -383,27 +383,91 @@ func immutableUseOK(a *fieldAccess) bool {
 
 // insideOnceDo reports whether fn is a function literal passed to (*sync.Once).Do by its parent.
 func insideOnceDo(fn *ssa.Function) bool {
-	par := fn.Parent()
-	if par == nil {
+	if par := fn.Parent(); par != nil {
+		found := false
+		an.EachInstr(par, func(ins ssa.Instruction) {
+			c, ok := ins.(*ssa.Call)
+			if !ok {
+				return
+			}
+			f := c.Call.StaticCallee()
+			if f == nil || an.ShortFunc(f) != "(*sync.Once).Do" {
+				return
+			}
+			for _, a := range c.Call.Args {
+				if mc, ok := a.(*ssa.MakeClosure); ok && mc.Fn == ssa.Value(fn) {
+					found = true
+				}
+			}
+		})
+		return found
+	}
+	// a method handed to Do as a method value (once.Do(w.init)) and called from nowhere else
+	if fn.Signature.Recv() == nil || fn.Prog == nil {
 		return false
 	}
-	found := false
-	an.EachInstr(par, func(ins ssa.Instruction) {
-		c, ok := ins.(*ssa.Call)
-		if !ok {
-			return
+	uses, direct := 0, 0
+	for other := range onceScan(fn) {
+		_ = other
+		uses++
+	}
+	for _, site := range an.SitesOf(fn) {
+		if par := site.Parent(); par != nil && an.Unbound(par) == par {
+			direct++
 		}
-		f := c.Call.StaticCallee()
-		if f == nil || an.ShortFunc(f) != "(*sync.Once).Do" {
-			return
+	}
+	return uses > 0 && direct == 0
+}
+
+// onceScan lists the (*sync.Once).Do calls of fn's package that are handed the method value of fn.
+func onceScan(fn *ssa.Function) map[*ssa.Call]bool {
+	out := map[*ssa.Call]bool{}
+	if fn.Pkg == nil {
+		return out
+	}
+	for _, m := range fn.Pkg.Members {
+		visitFns(m, func(f *ssa.Function) {
+			for _, b := range f.Blocks {
+				for _, ins := range b.Instrs {
+					c, ok := ins.(*ssa.Call)
+					if !ok || c.Call.StaticCallee() == nil || an.ShortFunc(c.Call.StaticCallee()) != "(*sync.Once).Do" {
+						continue
+					}
+					for _, a := range c.Call.Args {
+						if mc, isMC := a.(*ssa.MakeClosure); isMC {
+							if w, isF := mc.Fn.(*ssa.Function); isF && an.Unbound(w) == fn && w != fn {
+								out[c] = true
+							}
+						}
+					}
+				}
+			}
+		})
+	}
+	return out
+}
+
+func visitFns(m ssa.Member, f func(*ssa.Function)) {
+	var walk func(fn *ssa.Function)
+	walk = func(fn *ssa.Function) {
+		f(fn)
+		for _, a := range fn.AnonFuncs {
+			walk(a)
 		}
-		for _, a := range c.Call.Args {
-			if mc, ok := a.(*ssa.MakeClosure); ok && mc.Fn == ssa.Value(fn) {
-				found = true
+	}
+	switch x := m.(type) {
+	case *ssa.Function:
+		walk(x)
+	case *ssa.Type:
+		for _, t := range []types.Type{x.Type(), types.NewPointer(x.Type())} {
+			ms := x.Package().Prog.MethodSets.MethodSet(t)
+			for i := 0; i < ms.Len(); i++ {
+				if mf := x.Package().Prog.MethodValue(ms.At(i)); mf != nil && mf.Pkg == x.Package() {
+					walk(mf)
+				}
 			}
 		}
-	})
-	return found
+	}
 }
 
 func trackedFields(p *load.Program, typesList []string, r *oblig.Report, rule string) map[string]bool {
